@@ -7,6 +7,7 @@ import (
 	"strings"
 
 	biscuit "github.com/biscuit-auth/biscuit-go/v2"
+	"github.com/biscuit-auth/biscuit-go/v2/datalog"
 	"github.com/biscuit-auth/biscuit-go/v2/pb"
 	"google.golang.org/protobuf/proto"
 )
@@ -894,6 +895,69 @@ func runC17(res *Result, rng *RNG, tier string, outDir string) {
 
 // ---------------- C09: sealing ----------------
 
+func c09CustomBaseTwin(res *Result, f *family, r *RNG) {
+	base := []string{"acme-corp", "zz-tenant", "guest"}[:1+r.Intn(3)]
+	tbl := datalog.SymbolTable(append([]string{}, base...))
+	b := biscuit.NewBuilder(f.priv, biscuit.WithRNG(detReader{r.Fork()}), biscuit.WithSymbols(&tbl))
+	words := []string{"guest", "superuser", "acme-corp", "ops", "file1"}
+	w := func() string { return words[r.Intn(len(words))] }
+	facts := []SPred{{Name: "role", Terms: []STerm{aStr(w())}}, {Name: "admin", Terms: []STerm{aStr(w())}}, {Name: "member", Terms: []STerm{aStr(w()), aStr(w())}}}
+	for _, ft := range dedupePreds(facts) {
+		b.AddAuthorityFact(biscuit.Fact{Predicate: ft.toBiscuit()})
+	}
+	tok, err := b.Build()
+	if err != nil {
+		return
+	}
+	for k := r.Intn(3); k > 0; k-- {
+		bb := tok.CreateBlock()
+		bb.AddFact(biscuit.Fact{Predicate: SPred{Name: "seen", Terms: []STerm{aStr(w()), aInt(int64(k))}}.toBiscuit()})
+		if r.Bool() {
+			bb.AddCheck(SCheck{{Head: SPred{Name: "query"}, Body: []SPred{{Name: "role", Terms: []STerm{aStr(w())}}}}}.toBiscuit())
+		}
+		t2, err := tok.Append(detReader{r.Fork()}, bb.Build())
+		if err != nil {
+			return
+		}
+		tok = t2
+	}
+	sealed, err := tok.Seal(detReader{r.Fork()})
+	if err != nil {
+		res.Violate("seal-failed", "sealing a library-built token (custom base symbols) failed: "+err.Error(), map[string]interface{}{"base": base})
+		return
+	}
+	variants := map[string]*biscuit.Biscuit{"sealed": sealed}
+	if bs, err := sealed.Serialize(); err == nil {
+		t3 := datalog.SymbolTable(append([]string{}, base...))
+		if rl, err := (&biscuit.Unmarshaler{Symbols: &t3}).Unmarshal(bs); err == nil {
+			variants["sealed+reloaded"] = rl
+		} else {
+			res.Violate("sealed-reload-failed", "a sealed token over a custom base table does not unmarshal with that table: "+err.Error(), map[string]interface{}{"base": base})
+		}
+	}
+	ks := biscuit.WithSingularRootPublicKey(f.pub)
+	for pi := 0; pi < 6; pi++ {
+		pol := SPolicy{Queries: []SRule{{Head: SPred{Name: "query"}, Body: []SPred{{Name: []string{"role", "admin"}[r.Intn(2)], Terms: []STerm{aStr(w())}}}}}}
+		run := func(t *biscuit.Biscuit) string {
+			a, err := t.AuthorizerFor(ks, biscuit.WithWorldOptions(longDuration()))
+			if err != nil {
+				return "create:" + err.Error()
+			}
+			a.AddPolicy(pol.toBiscuit())
+			class, _, failed := classifyVerdict(a.Authorize())
+			return class + " " + strings.Join(failed, ",")
+		}
+		want := run(tok)
+		res.Dist("custom-base-twin")
+		for vn, v := range variants {
+			if got := run(v); got != want {
+				res.Violate("sealed-verdict-differs:custom-base:"+vn, fmt.Sprintf("token over base table %q, policy %s: unsealed gives %q, %s gives %q", base, azOp{Kind: "policy", Policy: pol}, want, vn, got),
+					map[string]interface{}{"base": base, "unsealed": tok.String(), "variant": v.String()})
+			}
+		}
+	}
+}
+
 func runC09(res *Result, rng *RNG, tier string, outDir string) {
 	res.Rule = "sealed/unsealed twins from random histories x a panel of authorizer contents: the sealed token must verify under the same root key, give the same verdict for every authorizer of the panel, keep the same revocation ids and root key id, refuse Append and Seal with an error, and all of this again after serialize/unmarshal; sealed envelopes with the seal signature, the last block or the last announced key altered must be rejected. Non-trivial = a twin pair with at least one appended block or a mutated sealed envelope; distinct by token bytes."
 	nfam := 40
@@ -988,6 +1052,11 @@ func runC09(res *Result, rng *RNG, tier string, outDir string) {
 					res.Violate("sealed-verdict-differs:"+vn, fmt.Sprintf("unsealed token gives %s %v, sealed gives %s %v", v1.Class, v1.Failed, v2.Class, v2.Failed), scReplay(sc, o2, rep))
 				}
 			}
+		}
+		// a twin issued over a custom base symbol table: sealing must not change what the
+		// in-memory token (nor its reloaded copy) authorizes
+		if r.Chance(40) {
+			c09CustomBaseTwin(res, f, r)
 		}
 		// tampering with the sealed envelope
 		for _, m := range f.mutations(r, si) {
